@@ -136,7 +136,10 @@ func (r *Replica) Block(events []Event) (BlockOut, error) {
 				return
 			}
 			rd := r.App.DeliverTx(abci.RequestDeliverTx{Tx: bz})
-			out.Txs = append(out.Txs, TxOut{Code: rd.Code, Hash: hashOf(rd), Log: trunc(rd.Log, 160)})
+			// what replicas have to agree on: code, data, gas and events. The free-text log and info are not part of the
+			// consensus results (a recovered panic's log carries a stack trace with goroutine numbers)
+			det := abci.ResponseDeliverTx{Code: rd.Code, Data: rd.Data, GasWanted: rd.GasWanted, GasUsed: rd.GasUsed, Events: rd.Events, Codespace: rd.Codespace}
+			out.Txs = append(out.Txs, TxOut{Code: rd.Code, Hash: hashOf(det), Log: trunc(rd.Log, 160)})
 		}
 		re := r.App.EndBlock(abci.RequestEndBlock{Height: h})
 		out.End = hashOf(re)
